@@ -181,6 +181,19 @@ Theorem C15_depol_gate_is_mixture : forall (F : OF) n p HS a b, (a < n)%nat -> d
 Proof. exact depol_gate_is_mixture. Qed.
 Print Assumptions C15_depol_gate_is_mixture.
 
+(* the SIDE of the composition: the theorem above is about  D_p o G  (hs_dp @ hs, noise AFTER the gate) and holds for EVERY
+   HS matrix - non-unital, non-trace-preserving, non-symmetric.  The other side  G o D_p  coincides with the mixture for unital
+   trace-preserving G (all unitary gates), and is NOT the mixture for a non-unital trace-preserving G (replacement channel, p = 1) *)
+Theorem C15_depol_gate_wrong_side_unital_tp : forall (F : OF) n p HS a b, (a < n)%nat -> (b < n)%nat ->
+  hs_tp F n HS -> hs_unital F n HS -> depol_gate_wrong_side F n p HS a b = mix_hs F p HS a b.
+Proof. exact depol_gate_wrong_side_unital_tp. Qed.
+Print Assumptions C15_depol_gate_wrong_side_unital_tp.
+Theorem C15_depol_gate_wrong_side_refuted : forall (F : OF),
+  exists (n : nat) (p : F) (HS : rmat F) (a b : nat), hs_tp F n HS /\ kle F (c0 F) p /\ kle F p (c1 F) /\ (a < n)%nat /\ (b < n)%nat /\
+    depol_gate_wrong_side F n p HS a b <> mix_hs F p HS a b /\ depol_gate F n p HS a b = mix_hs F p HS a b.
+Proof. exact depol_gate_wrong_side_refuted. Qed.
+Print Assumptions C15_depol_gate_wrong_side_refuted.
+
 (* operator level, any dimension d, any basis with B_0 = I/sd (sd^2 = d) and traceless B_a (a > 0):
    rho' = (1-p) rho + p tr(rho) I/d ;  E_x' = (1-p) E_x + p tr(E_x) I/d ;  G'(X) = (1-p) G(X) + p tr(G(X)) I/d for EVERY X *)
 Theorem C15_depol_state_operator : forall (F : OF) d sd dF (B : nat -> cmat F),
